@@ -640,19 +640,55 @@ func copyValue(r *engine.Run, rule string) {
 	// Insert wraps the marshalled bytes, not the caller's value object
 	if ins := r.Fn(rule, pkgUtil, "MerklePatriciaTrie", "Insert"); ins != nil {
 		good := false
-		engine.Instrs(ins, func(in ssa.Instruction) {
-			if st, ok := in.(*ssa.Store); ok {
-				if fld := engine.FieldOf(st.Addr); fld != nil && fld.Name() == "Buffer" {
-					if ex, ok := st.Val.(*ssa.Extract); ok {
-						if c, ok := ex.Tuple.(*ssa.Call); ok {
-							if _, ok := engine.IsMethodCall(c, "MarshalMsg"); ok {
-								good = true
-							}
-						}
+		isMarshalled := func(v ssa.Value) bool {
+			if ex, ok := v.(*ssa.Extract); ok {
+				if c, ok := ex.Tuple.(*ssa.Call); ok {
+					if _, ok := engine.IsMethodCall(c, "MarshalMsg"); ok {
+						return true
 					}
 				}
 			}
-		})
+			return false
+		}
+		group := opGroup(r, ins)
+		for _, g := range group {
+			engine.Instrs(g, func(in ssa.Instruction) {
+				st, ok := in.(*ssa.Store)
+				if !ok {
+					return
+				}
+				fld := engine.FieldOf(st.Addr)
+				if fld == nil || fld.Name() != "Buffer" {
+					return
+				}
+				if isMarshalled(st.Val) {
+					good = true
+					return
+				}
+				// the wrapping moved into a helper of Insert: the stored bytes are the helper's
+				// parameter, and every call of the helper hands it the marshalled bytes
+				if p, ok := st.Val.(*ssa.Parameter); ok && g != ins {
+					idx := -1
+					for i, q := range g.Params {
+						if q == p {
+							idx = i
+						}
+					}
+					all, any := true, false
+					for _, e := range r.P.RepoCG().In[g] {
+						if c, ok := e.Site.(ssa.CallInstruction); ok && idx >= 0 && idx < len(c.Common().Args) {
+							any = true
+							if !isMarshalled(c.Common().Args[idx]) {
+								all = false
+							}
+						}
+					}
+					if all && any {
+						good = true
+					}
+				}
+			})
+		}
 		r.Check(good, rule, fn(ins)+"|stored value", r.P.Pos(ins.Pos()), "the trie stores the bytes MarshalMsg produced", "Insert does not wrap the freshly marshalled bytes of the value")
 	}
 }
